@@ -472,6 +472,53 @@ fn case_setter(ty: u8, setter: usize, day: i64, nod: u64, v: i64, acc: &mut Acc)
     }
 }
 
+/// date setters on a DateTime under an offset (local year / month may differ from the UTC one):
+/// Ok iff the *local* candidate date is valid, Err is OutOfRange, an Ok value reads the argument back
+fn case_setter_offset(day: i64, nod: u64, off: i32, setter: usize, v: i64, acc: &mut Acc) {
+    use crate::refmodel::fields;
+    let local = ins::join(day, nod) + off as i128 * ins::NS;
+    if local < ins::MIN_INSTANT + 2 * ins::DAY || local > ins::MAX_INSTANT - 2 * ins::DAY {
+        return;
+    }
+    let x = match crate::real::dt_from_off(day, nod, off) {
+        Some(x) => x,
+        None => return,
+    };
+    acc.transitions += 1;
+    acc.states += 1;
+    let expect = fields::set_field(local, setter, v);
+    if let Some(l2) = expect {
+        if l2 < ins::MIN_INSTANT + 2 * ins::DAY || l2 > ins::MAX_INSTANT - 2 * ins::DAY {
+            return;
+        }
+    }
+    let got: R<i64> = attempt(|| {
+        let r = match setter {
+            0 => x.set_year(v as i32),
+            1 => x.set_month(v as u32),
+            2 => x.set_day(v as u32),
+            _ => x.set_day_of_year(v as u32),
+        };
+        r.map(|y| match setter {
+            0 => y.year() as i64,
+            1 => y.month() as i64,
+            2 => y.day() as i64,
+            _ => y.day_of_year() as i64,
+        })
+    });
+    let case = json!({"kind": "setter_offset", "setter": setter, "day": day, "nod": nod.to_string(), "off": off, "v": v});
+    let op = format!("DateTime::set_{}", SETTERS[setter]);
+    match (expect, &got) {
+        (Some(_), R::Ok(g)) if *g == v => acc.branch("accepted"),
+        (None, R::Oor(_)) => {
+            acc.branch("refused");
+            acc.nontrivial += 1;
+        }
+        (Some(_), other) => acc.violation(&op, "valid-local-value-not-accepted-under-offset", case, format!("Ok reading back {}", v), format!("{:?}", other)),
+        (None, other) => acc.violation(&op, "invalid-local-value-not-refused-under-offset", case, "Err(OutOfRange)".into(), format!("{:?}", other)),
+    }
+}
+
 fn probe_setter(ty: u8, setter: usize, day: i64, nod: u64, v: i64) -> bool {
     let r = call(|| match ty {
         0 => {
@@ -689,6 +736,23 @@ pub fn run(ctx: &Ctx) -> i32 {
             acc.sample(json!({"op": format!("set_{}", SETTERS[setter]), "ty": ty, "day": d, "nod": n, "v": v}));
         }
     });
+    // date setters under offsets that move the local date into another day / month / year than the UTC date
+    let odays = ab::days_b_small();
+    let combos: [(u64, i32); 6] = [(84_600_000_000_000, 3_600), (1_800_000_000_000, -3_600), (43_200_000_000_000, 43_200), (43_199_999_999_999, -43_200), (86_399_999_999_999, 1), (0, -86_399)];
+    let mut ocases: Vec<(i64, u64, i32, usize, i64)> = vec![];
+    for &d in &odays {
+        for (nod, off) in combos {
+            for setter in 0..4 {
+                for v in setter_values(setter) {
+                    ocases.push((d, nod, off, setter, v));
+                }
+            }
+        }
+    }
+    rep.sweep("date setters on DateTime under offsets (local date differs from UTC date)", ocases.len() as u64, "DAYS_B' x 6 (time, offset) combinations x 4 setters x candidate values", |i, acc| {
+        let (d, n, o, s, v) = ocases[i as usize];
+        case_setter_offset(d, n, o, s, v, acc);
+    });
     rep.finish()
 }
 
@@ -701,6 +765,7 @@ pub fn replay(_op: &str, case: &Value, acc: &mut Acc) -> bool {
         Some("time_from_nanos") => case_time_from_nanos(case["n"].as_str().unwrap().parse().unwrap(), acc),
         Some("offset_from_seconds") => case_offset_from_seconds(case["sec"].as_i64().unwrap() as i32, true, acc),
         Some("offset_from_hms") => case_offset_from_hms(a[0].as_i64().unwrap() as i32, a[1].as_u64().unwrap() as u32, a[2].as_u64().unwrap() as u32, acc),
+        Some("setter_offset") => case_setter_offset(case["day"].as_i64().unwrap(), case["nod"].as_str().unwrap().parse().unwrap(), case["off"].as_i64().unwrap() as i32, case["setter"].as_u64().unwrap() as usize, case["v"].as_i64().unwrap(), acc),
         Some("setter") => case_setter(case["ty"].as_u64().unwrap() as u8, case["setter"].as_u64().unwrap() as usize, case["day"].as_i64().unwrap(), case["nod"].as_str().unwrap().parse().unwrap(), case["v"].as_i64().unwrap(), acc),
         _ => return false,
     }
